@@ -21,11 +21,11 @@
                            and raises AttributeError (`Operand.unguarded`).
   * instances of a library SUBCLASS or BASE CLASS of C are neither: they pass (or are judged by) an `isinstance`
     guard somewhere in the family.  Only classes that have such relatives define the two extra functions
-        `eqSub  a b` : `a == x`, x an instance of a library proper subclass of C whose C-level attributes are `b`
-        `eqBase a b` : `a == x`, x an instance of a library proper base class of C (which itself defines or
+        `eqSubclass  a b` : `a == x`, x an instance of a library proper subclass of C whose C-level attributes are `b`
+        `eqBaseclass a b` : `a == x`, x an instance of a library proper base class of C (which itself defines or
                         inherits the family's `__eq__`); `b` gives the attributes the base class has, the rest of
                         `b` is ignored
-    (step 1 applies to `eqSub`: the subclass operand is asked first, with the operands swapped).
+    (step 1 applies to `eqSubclass`: the subclass operand is asked first, with the operands swapped).
 -/
 import Acra.Py.Basic
 namespace Acra.Py
@@ -71,6 +71,24 @@ def Operand.guarded (eq : σ → σ → R Bool) (a : σ) : Operand σ → R Bool
 def Operand.unguarded (eq : σ → σ → R Bool) (a : σ) : Operand σ → R Bool
   | .same b => eq a b
   | .foreign _ => .error .attribute
+
+/-- what a class's `__eq__` answers when its operand is NOT an instance of the class: `False` from the guard, or —
+    without a guard — AttributeError from the first attribute it reads of the operand -/
+def Operand.rejects (guarded : Bool) : R Bool := if guarded then .ok false else .error .attribute
+
+/-- `__eq__` behind its opening statement as found in the source (`guarded` is regenerated: `Gen.EqGuard`) -/
+def Operand.opening (guarded : Bool) (eq : σ → σ → R Bool) (a : σ) : Operand σ → R Bool
+  | .same b => eq a b
+  | .foreign _ => Operand.rejects guarded
+
+theorem Operand.opening_true (eq : σ → σ → R Bool) : Operand.opening true eq = Operand.guarded eq := by
+  funext a o; cases o <;> rfl
+
+theorem Operand.opening_false (eq : σ → σ → R Bool) : Operand.opening false eq = Operand.unguarded eq := by
+  funext a o; cases o <;> rfl
+
+@[simp] theorem Operand.opening_same (g : Bool) (eq : σ → σ → R Bool) (a b : σ) :
+    Operand.opening g eq a (.same b) = eq a b := rfl
 
 @[simp] theorem Operand.guarded_same (eq : σ → σ → R Bool) (a b : σ) :
     Operand.guarded eq a (.same b) = eq a b := rfl
